@@ -621,6 +621,93 @@ func TestCloseReal(t *testing.T) {
 		}()
 		out.Add("closereal-race-"+tn, rec.Ev{"tran": tn}, tn+" close racing with connections", sim.Result{Lines: r.Lines(), Status: status, Detail: detail})
 	}
+	// Close racing with connections that complete: a socket with many listeners (closing them takes a while) is
+	// closed while real peers connect to the last one.  Whatever the socket reported Attached it must report
+	// Detached, with the peers still connected: no connection outlives the socket it belongs to (C10, C13).
+	{
+		r := rec.New()
+		status, detail := "ok", ""
+		func() {
+			defer func() {
+				if x := recover(); x != nil {
+					status, detail = "panic", fmt.Sprint(x)
+				}
+			}()
+			tries := count(8, 60)
+			established, leaked := 0, 0
+			leakDetail := ""
+			for i := 0; i < tries && leaked == 0; i++ {
+				s, _ := rep.NewSocket()
+				var mu sync.Mutex
+				att, det := 0, 0
+				s.SetPipeEventHook(func(ev mangos.PipeEvent, _ mangos.Pipe) {
+					mu.Lock()
+					defer mu.Unlock()
+					switch ev {
+					case mangos.PipeEventAttached:
+						att++
+					case mangos.PipeEventDetached:
+						det++
+					}
+				})
+				addr := ""
+				for k := 0; k < 120; k++ {
+					l, err := s.NewListener("tcp://127.0.0.1:0", nil)
+					if err != nil {
+						panic(err)
+					}
+					if err = l.Listen(); err != nil {
+						continue
+					}
+					addr = l.Address()
+				}
+				if addr == "" {
+					_ = s.Close()
+					continue
+				}
+				var wg sync.WaitGroup
+				var peers []mangos.Socket
+				for k := 0; k < 4; k++ {
+					q, _ := req.NewSocket()
+					_ = q.SetOption(mangos.OptionDialAsynch, false)
+					_ = q.SetOption(mangos.OptionReconnectTime, time.Hour) // one connection each
+					peers = append(peers, q)
+					wg.Add(1)
+					go func() {
+						defer wg.Done()
+						time.Sleep(time.Duration((i*53)%300) * time.Microsecond)
+						_ = q.Dial(addr)
+					}()
+				}
+				time.Sleep(time.Duration(50+(i*37)%200) * time.Microsecond)
+				_ = s.Close()
+				wg.Wait()
+				ok := false
+				for w := 0; w < 200 && !ok; w++ { // up to 2 s for the Detached callbacks (they run in their own goroutines)
+					mu.Lock()
+					ok = att == det
+					mu.Unlock()
+					if !ok {
+						time.Sleep(10 * time.Millisecond)
+					}
+				}
+				mu.Lock()
+				established += att
+				if !ok {
+					leaked++
+					leakDetail = fmt.Sprintf("try %d: %d connections Attached, %d Detached two seconds after Close returned", i, att, det)
+				}
+				mu.Unlock()
+				for _, q := range peers {
+					_ = q.Close()
+				}
+			}
+			r.Emit("rrace", "tran", "tcp-attach", "tries", tries, "established", established, "survivors", 0, "leaked", leaked, "g", leakDetail)
+			g := waitNoGoroutines(3 * time.Second)
+			r.Emit("rcensus", "n", len(g), "g", fmt.Sprint(g))
+		}()
+		out.Add("closereal-race-attach", rec.Ev{"tran": "tcp"}, "close racing with completing connections", sim.Result{Lines: r.Lines(), Status: status, Detail: detail})
+	}
 	// the dialing side: a server that accepts the connection and never says anything; the socket that was
 	// dialing it is closed - nothing of that socket may be left running while the server just sits there
 	for _, tn := range []string{"tcp", "ipc"} {
